@@ -745,6 +745,7 @@ class Interp:
         for ename, members in self.enum_tbl.items():
             ns[ename] = _enum.IntEnum(ename, members)
         ns.update(CONSTANTS)
+        ns.update(tables.module_constants())
         import math as _math
 
         for mf in MATH_FUNCS:
@@ -766,7 +767,10 @@ class Interp:
 
         args = [cval(a) for a in e.args]
         kw = {k.arg: cval(k.value) for k in e.keywords}
-        r = ns[f.node.name](*args, **kw)
+        try:
+            r = ns[f.node.name](*args, **kw)
+        except Exception as ex:
+            raise Unsupported(f"constexpr function raised {type(ex).__name__}: {ex}")
         if isinstance(r, bool):
             return 1.0 if r else 0.0
         if isinstance(r, (int, float)):
